@@ -35,7 +35,7 @@ class RestartRun(qsrun.QsRun):
         sim.connect("probe")
         sim.quiesce()
         # P-ids: a new id-less job gets an id never used before
-        sim.send("probe", "qadd", {"channel": "a", "timeout": 7})
+        sim.send("probe", "qadd", {"channel": "a", "timeout": 7, "ttl": 3600})
         self._quiesce()
         # P-wait: waiting on restored finished jobs is answered in the quantum it is issued
         done = sorted([j.jobid for j in model.jobs.values() if j.state == "d"], key=str)
